@@ -13,6 +13,7 @@ M1 (restart) — what the server does with a persisted tick log when it starts
   remembered ("last wins").  The clock is the wall clock at replay time, not the time the tick
   was processed (ticks are persisted without it): `clk i` below.  A reducer exception
   (`crash`) propagates: `none`.
+* the persisted form of a tick (`Tick.persist`): `AddWaiter` requirements do not survive the store.
 * `handler_status_from_exit_command`.
 * `TickPersistenceDecorator.context_from_ticks`: validates the workflow first (repair `fix-C13`:
   the catch_error tables of the configuration are built by validation, so replay reduces with the
@@ -29,6 +30,23 @@ M1 (restart) — what the server does with a persisted tick log when it starts
 Import-free apart from the engine model, so that `wfdriver` links.
 -/
 namespace Engine
+
+/-! ### what of a tick survives the store -/
+
+/-- `WorkflowTickAdapter.dump_python(tick, mode="json")` → store → `validate_python`: an `AddWaiter`
+result is written with `requirements = {}` plus a `has_requirements` flag, and the validator strips
+that flag again ("it's computed"), so the tick read back says "no requirements".  (Event payloads
+and exceptions are abstract ids in this model; their own round trip is property C18.) -/
+def Res.persist : Res → Res
+  | .addWaiter wid waiterEv _ timeout ty => .addWaiter wid waiterEv none timeout ty
+  | r => r
+
+def Tick.persist : Tick → Tick
+  | .stepResult step worker ev res => .stepResult step worker ev (res.map Res.persist)
+  | t => t
+
+/-- the persisted log of a run: `on_tick` appends every processed tick (without its time) -/
+def persistedTicks (log : List (Tick × Int)) : List Tick := log.map (fun p => p.1.persist)
 
 /-- "last wins": the last exit-indicating command seen so far -/
 def lastExit (prev : Option Cmd) (cmds : List Cmd) : Option Cmd :=
